@@ -1,3 +1,109 @@
 (* C03 — adaptation field stays a faithful ISO 13818-1 encoding under any edit history.
-   Statements only; proofs live in Proofs/AF*.v.  (theorems are added group by group) *)
-From Gots Require Import Base.Prelude Model.Pcr Model.AF Model.AFfn Spec.AFSpec.
+   This file holds only the property statements; proofs live in Proofs/AF*.v and Proofs/PcrBytes.v.
+
+   Reading guide.  `repr p l hdr pay` (Spec/AFSpec.v): the 188-byte packet p is  hdr ++ ser_laf l ++ pay  with a
+   4-byte header whose adaptation-field bit is set, l well-formed (adaptation_field_length 1..183, 6-byte
+   PCR/OPCR, byte values) and fitting (contents <= adaptation_field_length).  `ser_laf` is the ISO serialiser:
+   length, flags, present fields in standard order, 0xFF stuffing up to adaptation_field_length.  hdr and pay are
+   the same on both sides of every statement: header and payload are untouched.  `op_rel l o (Done l')` /
+   `op_rel l o (Fail e)`: the meaning of operation o on the logical value (a presence toggle that turns a
+   fixed-size field on leaves its value unspecified).  AF.step is the model of the Go setters (repaired code of
+   /root/work/repo-fixed: F5, F6 and the C05 guards), AF.run a whole history by a caller that ignores errors.
+   All 14 setters (SetDiscontinuity, SetRandomAccess, SetElementaryStreamPriority, SetHasPCR, SetHasOPCR,
+   SetHasSplicingPoint, SetHasTransportPrivateData, SetHasAdaptationFieldExtension, SetPCR, SetOPCR,
+   SetSpliceCountdown, SetTransportPrivateData, SetAdaptationFieldExtension, Packet.SetAdaptationField) are
+   covered by step_refines and therefore by the history theorem; nothing is _partial there. *)
+From Gots Require Import Base.Prelude Model.Pcr Model.AF Model.AFfn Spec.AFSpec
+  Proofs.AFLists Proofs.PcrBytes Proofs.AFHistory Proofs.AFGetters Proofs.AFExamples.
+
+(* one call: Ok => the bytes are the serialisation of the updated logical value (same header, same payload,
+   same adaptation_field_length); Err => the operation cannot be honoured (and the packet is untouched, see
+   C03_error_only_when_refused); never a panic *)
+Theorem C03_step_refines : forall p l hdr pay o, repr p l hdr pay -> op_ok o ->
+  match AF.step p o with
+  | Ok p' => exists l', op_rel l o (Done l') /\ repr p' l' hdr pay
+  | Err e => op_rel l o (Fail e)
+  | Panic | Diverge => False
+  end.
+Proof. exact step_refines. Qed.
+Print Assumptions C03_step_refines.
+
+(* all histories, all well-formed starts: by induction over the operation list *)
+Theorem C03_history : forall h p l hdr pay, repr p l hdr pay -> Forall op_ok h ->
+  exists l', hist_rel l h l' /\ repr (AF.run p h) l' hdr pay.
+Proof. exact history. Qed.
+Print Assumptions C03_history.
+
+(* ... and after every call of the history, not only at its end *)
+Theorem C03_history_every_prefix : forall h1 h2 p l hdr pay, repr p l hdr pay -> Forall op_ok (h1 ++ h2) ->
+  exists l', hist_rel l h1 l' /\ repr (AF.run p h1) l' hdr pay.
+Proof. exact history_every_prefix. Qed.
+Print Assumptions C03_history_every_prefix.
+
+(* a call that cannot be honoured returns an error and leaves the packet byte-for-byte unchanged; an error is
+   reported only then *)
+Theorem C03_error_only_when_refused : forall p l hdr pay o e, repr p l hdr pay -> op_ok o ->
+  AF.step p o = Err e -> op_rel l o (Fail e) /\ AF.after p o = p /\ ~ (exists l', op_rel l o (Done l')).
+Proof. exact error_only_when_refused. Qed.
+Print Assumptions C03_error_only_when_refused.
+
+(* a call whose result fits in adaptation_field_length never fails *)
+Theorem C03_no_spurious_error : forall p l hdr pay o, repr p l hdr pay -> op_ok o ->
+  (exists l', op_rel l o (Done l')) -> exists p', AF.step p o = Ok p'.
+Proof. exact no_spurious_error. Qed.
+Print Assumptions C03_no_spurious_error.
+
+(* every getter of both APIs returns the logical value of a present field and the error for an absent one.
+   Known finding F13 (pinned by adaptationfield_test.go:287,302): the METHOD getters TransportPrivateData() and
+   AdaptationFieldExtension() return `length byte :: value`; that is what method_getters states. *)
+Theorem C03_getters_agree_partial : forall p l hdr pay, repr p l hdr pay -> method_getters p l /\ fn_getters p l.
+Proof. exact getters_agree. Qed.
+Print Assumptions C03_getters_agree_partial.
+
+(* the full reading of the property's getter clause: the method getters return the value itself *)
+Definition C03_getters_full : Prop := forall p l hdr pay, repr p l hdr pay ->
+  fn_getters p l /\ method_getters p l /\
+  AF.TransportPrivateData p = opt_res (l_tpd l) (fun d => d) E.NoPrivateTransportData /\
+  AF.AdaptationFieldExtension p = opt_res (l_ext l) (fun d => d) E.NoAdaptationFieldExtension.
+Theorem C03_getters_full_refuted : ~ C03_getters_full.
+Proof. exact getters_full_refuted. Qed.
+Print Assumptions C03_getters_full_refuted.
+
+(* a getter returns the value just set *)
+Theorem C03_pcr_readback : forall p l hdr pay v p', repr p l hdr pay -> v < PcrMax ->
+  AF.step p (AF.OSetPCR v) = Ok p' -> AF.PCR p' = Ok v /\ AFfn.PCR p' = Ok (pcr_enc v).
+Proof. exact pcr_readback. Qed.
+Print Assumptions C03_pcr_readback.
+Theorem C03_opcr_readback : forall p l hdr pay v p', repr p l hdr pay -> v < PcrMax ->
+  AF.step p (AF.OSetOPCR v) = Ok p' -> AF.OPCR p' = Ok v /\ AFfn.OPCR p' = Ok (pcr_enc v).
+Proof. exact opcr_readback. Qed.
+Print Assumptions C03_opcr_readback.
+Theorem C03_splice_readback : forall p l hdr pay v p', repr p l hdr pay -> v < 256 ->
+  AF.step p (AF.OSetSplice v) = Ok p' -> AF.SpliceCountdown p' = Ok (AF.int8 v) /\ AFfn.SpliceCountdown p' = Ok v.
+Proof. exact splice_readback. Qed.
+Print Assumptions C03_splice_readback.
+Theorem C03_tpd_readback_partial : forall p l hdr pay d p', repr p l hdr pay -> is_bytes d ->
+  AF.step p (AF.OSetTPD d) = Ok p' ->
+  AF.TransportPrivateData p' = Ok (len d :: d) /\ AFfn.TransportPrivateData p' = Ok d /\ AFfn.EncoderBoundaryPoint p' = Ok d.
+Proof. exact tpd_readback. Qed.
+Print Assumptions C03_tpd_readback_partial.
+Theorem C03_ext_readback_partial : forall p l hdr pay d p', repr p l hdr pay -> is_bytes d ->
+  AF.step p (AF.OSetExt d) = Ok p' -> AF.AdaptationFieldExtension p' = Ok (len d :: d).
+Proof. exact ext_readback. Qed.
+Print Assumptions C03_ext_readback_partial.
+
+(* SetPCR/SetOPCR write the ISO layout of the value (33-bit base, 6 reserved bits set, 9-bit extension) *)
+Theorem C03_pcr_layout : forall v, v < PcrMax -> Pcr.pcr6 v = pcr_enc v.
+Proof. exact pcr6_enc. Qed.
+Print Assumptions C03_pcr_layout.
+Theorem C03_pcr_roundtrip : forall v, v < PcrMax -> pcr_dec (pcr_enc v) = v.
+Proof. exact pcr_dec_enc. Qed.
+Print Assumptions C03_pcr_roundtrip.
+
+(* non-vacuity: a populated field next to a payload satisfies the hypotheses, and a history that removes
+   populated private data, refills to capacity and is refused one byte later behaves as stated *)
+Example C03_nonvacuous :
+  repr ex_p ex_l ex_hdr ex_pay /\ Forall op_ok ex_hist /\
+  AF.run ex_p ex_hist = ex_hdr ++ ser_laf ex_l_final ++ ex_pay /\ fits ex_l_final /\
+  AF.step (AF.run ex_p ex_hist) (AF.OSetExt [1; 2; 3; 4; 5; 6; 7; 8; 9; 10]) = Err E.AdaptationFieldCannotGrow.
+Proof. exact ex_nonvacuous. Qed.
